@@ -225,6 +225,17 @@ def first_term_only(ctx, rid, a, S, what='start'):
     z = [s for s in srcs if s not in nz]
     is0 = lambda x: uncast(x)[0] == 'const' and uncast(x)[1] == 0
     eq0 = edges_where(a, lambda op, l, r: op == 'Eq' and ((is0(r) and not is0(l)) or (is0(l) and not is0(r))))
+    sw_idx = []
+    for b_ in sorted(a.cfg.reach0):
+        t_ = a.blocks[b_]['t']
+        if t_['k'] == 'switch' and t_.get('dty') in ('usize', 'u64', 'u32', 'isize', 'i64', 'i32') and not t_.get('ex'):
+            for (v_, tgt_) in t_['ts']:
+                if str(v_) == '0' and any(b is not None and a.cfg.must_pass(b, via_edges=[(b_, tgt_)]) for (b, si, e) in nz):
+                    de_ = a.flow.expr(t_['d'])
+                    if de_[0] in ('discr', 'discriminant') or flow.show(de_).startswith('discr('):
+                        continue
+                    eq0 = list(eq0) + [(b_, tgt_)]
+                    sw_idx.append(de_)
     ok = bool(nz) and bool(z) and bool(eq0) and all(b is not None and a.cfg.must_pass(b, via_edges=eq0) for (b, si, e) in nz)
     site = '-'
     for (b, si, e) in nz:
@@ -241,6 +252,7 @@ def first_term_only(ctx, rid, a, S, what='start'):
         ce = cond_edges(a, x)
         if ce:
             idxs += [z for z in (ce[1], ce[2]) if not is0(z)]
+    idxs += sw_idx
     if idxs:
         bad = [z for z in idxs if not _global_index(ctx.F, a, uncast(z))]
         ctx.check(not bad, rid, a.path, 'plan-wide index', site, 'the index tested against 0 numbers the terms of the whole plan (one enumeration / counter started outside every loop)',
@@ -405,6 +417,10 @@ def r17b(ctx):
     d = uncast(data)
     while d[0] in ('ref', 'deref'):
         d = d[1]
+    if d[0] == 'index' and range_parts(d[2]) is not None:
+        s_, e_ = [_path(uncast(z_)) for z_ in range_parts(d[2])]
+        if s_[1] == ('start',) and e_[1] == ('end',) and _strip_sites(s_[0]) == _strip_sites(e_[0]) and s_[0][0] in ('upvar', 'param'):
+            d = ('index', d[1], s_[0])
     ok = d[0] == 'index' and a.rooted_at(d[1], got) and uncast(d[2])[0] in ('upvar', 'param')
     if not ctx.check(ok, 'R17b', fn, 'slice written', a.loc(wa), 'the bytes written are term_data[term_range] (the fetched term indexed by the range parameter)',
                      'the bytes written are %s, not the fetched term data indexed by the term_range parameter' % flow.show(data)[:100]):
